@@ -34,7 +34,7 @@ COMPONENTS = {
     "real": ["canopen.sdo.client.BlockUploadStream", "SdoClient.open/read_response/send_request/abort", "canopen.Network", "io.BufferedReader"],
     "stub": ["CAN backend (SimBus) with fault-injecting transport", "can.Notifier", "time/queue in canopen.sdo.client", "SDO server (RefSdoServer)"],
 }
-PROBES = ["undisturbed-ok", "multi-subblock", "retransmit-requested", "repaired", "crc-in-force", "sdo-error-after-fault", "crc-is-zero"]
+PROBES = ["undisturbed-ok", "multi-subblock", "retransmit-requested", "repaired", "crc-in-force", "sdo-error-after-fault", "crc-is-zero", "read-in-pieces"]
 
 LENS = (1, 6, 7, 8, 14, 15, 20, 21, 22, 50, 100, 882, 888, 889, 890, 895, 896, 897, 1779)
 CRCM = ((True, True), (True, False), (False, True), (False, False))     # (client requests, server supports)
@@ -170,14 +170,26 @@ def scenario(ctx):
         value = value[:-2] + crc16_xmodem(value[:-2]).to_bytes(2, "big")
         ctx.probe("crc-is-zero")
     srv.store[(index, sub)] = value
-    buffering = (1024, 0, 7, 64)[ctx.choice(4, "buffering")]
+    buffering = (1024, 0, 7, 64, 10, 1000)[ctx.choice(6, "buffering")]
+    # how the caller takes the data: all at once, or in pieces of k bytes (through the buffered reader the raw stream is
+    # then offered room for fewer bytes than a segment holds)
+    piece = (0, 0, 1, 3, 10, 100, 1023, 1030)[ctx.choice(8, "piece")]
+    if piece:
+        ctx.probe("read-in-pieces")
     plan.active = True
     plan.resp = 0
 
     def do():
         with node.sdo.open(index, sub, "rb", buffering=buffering, block_transfer=True,
                            request_crc_support=creq) as fp:
-            return fp.read()
+            if not piece:
+                return fp.read()
+            out = bytearray()
+            while True:
+                part = fp.read(piece)
+                if not part:
+                    return bytes(out)
+                out += part
     res, exc = call(do)
     plan.active = False
     ctx.drain()
